@@ -1,4 +1,5 @@
 import GoPlugin.Props.C03
+import GoPlugin.Props.C20
 import GoPlugin.Generated.Facts
 /- C03 at the facts extracted from the current source. -/
 namespace GoPlugin.Instance.C03
@@ -11,5 +12,12 @@ theorem facts_good : Facts.crash.Good := by decide
 theorem holds_exited_and_cancelled (s : State) (h : Reachable Facts.crash s) (hd : s.procAlive = false) :
     (settle Facts.crash s).exited = true ∧ (settle Facts.crash s).ctxCancelled = true ∧ (settle Facts.crash s).wait = .done :=
   exited_and_cancelled _ facts_good s h hd
+
+/-- "the host process does not panic" when the plugin dies with a broker `Send` in flight: the death closes the
+broker stream (`quit`), and no interleaving of in-flight `Send`s, the stream goroutine and that close ends in a send on
+a closed reply channel (the reply-channel protocol of C20, at the facts of the host-side streamer) -/
+theorem holds_inflight_send_never_panics (s : ReplyChan.State) (h : ReplyChan.Reachable Facts.replyChanClient s) :
+    s.panicked = false :=
+  Props.C20.no_send_on_closed_channel _ (by decide) s h
 
 end GoPlugin.Instance.C03
